@@ -2791,6 +2791,13 @@ func (a *Agent) handlePeerDisconnect(conn *peer.Connection, err error) {
 	// Clean up relay streams involving this peer
 	a.cleanupRelaysForPeer(peerID)
 
+	// Let the flooder forget the advertisements the peer's routes came from,
+	// so that the table replay after a reconnect is not dropped as a duplicate
+	// (must happen while the routes are still in the tables)
+	if a.flooder != nil {
+		a.flooder.OnPeerDisconnected(peerID)
+	}
+
 	// Clean up routes learned from this peer
 	a.routeMgr.HandlePeerDisconnect(peerID)
 	a.routeMgr.HandlePeerDisconnectDomain(peerID)
